@@ -48,6 +48,36 @@ def native_gate(n, lam, norm):
         return "refused", C
 
 
+def singular_history(steps, dt):
+    """Exactly known and exactly correlated states: the covariance is positive SEMI-definite (singular) all along.
+    Model: x' = x + dt*v, v' = v, copy' = x (exact copy, no noise of its own); start: variance 0 for x (known exactly)."""
+    import numpy as np
+    from replay import shim
+
+    py = shim.install()
+    ui = native.repo_import("formak.ui")
+    dts, x, v, cp, u = (ui.Symbol(nm) for nm in ("dt", "x", "v", "copy", "u"))
+    model = ui.Model(dt=dts, state={x, v, cp}, control={u}, state_model={x: x + dts * v, v: v + dts * u, cp: x})
+    ekf = py.compile_ekf(model, {u: 0.5}, {"pos": {"px": x}, "both": {"px": x, "pc": cp}}, {"pos": {"px": 0.25}, "both": {"px": 0.25, "pc": 0.5}}, config={"innovation_filtering": None})
+    state, cov = ekf.State(x=1.0, v=0.5, copy=1.0), ekf.Covariance(x=0.0, copy=0.0)
+    for i in range(steps):
+        try:
+            if i % 2 == 0:
+                state, cov = ekf.process_model(dt, state, cov, ekf.Control(u=0.1))
+            else:
+                key = "pos" if i % 4 == 1 else "both"
+                rd = ekf.make_reading(key, **({"px": 1.0 + 0.01 * i} if key == "pos" else {"px": 1.0 + 0.01 * i, "pc": 1.0}))
+                state, cov = ekf.sensor_model(state, cov, sensor_key=key, sensor_reading=rd)
+        except Exception as e:  # AssertionError (gate) or LinAlgError: a valid semi-definite covariance was refused
+            return False, f"singular-covariance history: refused at step {i + 1} (dt={dt}) with {type(e).__name__}: {(str(e).splitlines() or [''])[0][:120]}"
+        c = cov.data
+        w = np.linalg.eigvalsh((c + c.T) / 2)
+        mag = max(abs(w).max(), 1e-300)
+        if not np.allclose(c, c.T, rtol=1e-7, atol=1e-12 * mag) or w.min() < -1e-9 * mag:
+            return False, f"singular-covariance history, step {i + 1}: covariance invalid (lam_min {w.min():.3e}, magnitude {mag:.3e})"
+    return True, "ok"
+
+
 def mass_model_history(steps, dt, updates=True):
     """The project's own singular-Jacobian example, propagated natively; returns (ok, detail)."""
     import numpy as np
@@ -152,7 +182,7 @@ def check(run):
                 return v.as_long()
             return v.numerator_as_long() / v.denominator_as_long()
 
-        nv, lv, mv = int(num(n)), float(num(lam)), float(num(norm))
+        nv, lv, mv = max(int(num(n)), 1), float(num(lam)), float(num(norm))  # a spectrum needs at least one eigenvalue
         run.native_runs += 1
         verdict, C = native_gate(nv, lv, mv)
         accept_clause = "accepts_relatively_psd" in ob.name
@@ -176,6 +206,13 @@ def check(run):
             fails += 1
             run.findings.append(Finding("C09.py.history.mass_model", "mass-model-refused", f"project's mass/z/v/a model: {why}", {"language": "python", "inputs": {"model": "mass", "dt": dt, "steps": steps}, "oracle_verdict": why}, True))
             break
+    if not fails:
+        histories += 1
+        run.native_runs += 1
+        ok, why = singular_history(400 if run.tier == "thorough" else 80, 0.1)
+        if not ok:
+            fails += 1
+            run.findings.append(Finding("C09.py.history.singular_covariance", "singular", why, {"language": "python", "inputs": {"model": "singular", "steps": 400 if run.tier == "thorough" else 80, "dt": 0.1}, "oracle_verdict": why}, True))
     if not fails:
         for seed in range(3 if run.tier == "thorough" else 1):
             for scale in (1.0, 1e-2, 1e3) if (run.tier == "thorough" or seed == 0) else (1.0,):
@@ -201,10 +238,14 @@ def replay_file(payload):
         ok, why = mass_model_history(inp["steps"], inp["dt"])
         print("replay mass model history:", why)
         return ok
+    if inp.get("model") == "singular":
+        ok, why = singular_history(inp["steps"], inp["dt"])
+        print("replay singular-covariance history:", why)
+        return ok
     if inp.get("model") == "generic":
         ok, why = generic_history(inp["seed"], inp["steps"], inp["dt"], inp.get("scale", 1.0))
         print("replay generic history:", why)
         return ok
-    verdict, C = native_gate(inp["n"], inp["lam_min"], inp["norm2"])
+    verdict, C = native_gate(max(int(inp["n"]), 1), inp["lam_min"], inp["norm2"])
     print(f"replay gate on diag({inp['norm2']},...,{inp['lam_min']}) (n={inp['n']}): {verdict}")
     return False if payload.get("oracle_verdict") == verdict else True
